@@ -13,7 +13,9 @@ META = {
             "by a correspondence run, and the property's own oracle is run on the real code over all 2^32 offsets / in-range page deltas.",
     "note": "Trusted: Lean kernel; the CPU semantics of auipc/addi and pcalau12i/addi.d are hand-written specifications from the ISA manuals "
             "(three independent copies — Lean, Go harness, Python — are cross-checked against each other); the model/code tie is differential. "
-            "Modelled-not-verified: the assembler's bookkeeping around the calls (hi/lo pairing maps in asm_func_*_x.go, uint32(addr) truncation in MakeAbs callers). "
+            "Modelled-not-verified: the assembler's bookkeeping around the calls (hi/lo pairing maps in asm_func_*_x.go, uint32(addr) truncation in MakeAbs callers); "
+            "the LoongArch call site is exercised end to end (assemble, read the instruction fields back, apply the CPU semantics); the RISC-V call site cannot be "
+            "reached through the assembler on this tree (abi.BuiltinFn.IsValid rejects %pcrel_hi/%pcrel_lo for RISC-V). "
             "Remark proved, not a finding: on RV64 the top 2048 offsets (d >= 2^31-2^11) are beyond auipc reach (rv64_guard_tight); "
             "GetTargetAddressLa64 omits sign extension (getTargetAddressLa64_agrees_iff).",
     "technique": "Lean 4 proof over hand-written BitVec model + differential correspondence + exhaustive 2^32 sweep of the real code",
@@ -122,8 +124,24 @@ def run(ctx):
     def bump(k):
         dist[k] = dist.get(k, 0) + 1
 
+    e2e_model_ops, e2e_fields = [], []
+
+    def check_e2e(op, r):
+        if not r.startswith("ok "):
+            ctx.violation("asm-e2e:" + r.split()[0], "%s -> %s" % (op, r), {"op": op, "impl": r}); return
+        kv = dict(x.split("=") for x in r.split()[1:])
+        pc, sym, hi, lo, cpu = (int(kv[k]) for k in ("pc", "sym", "hi", "lo", "cpu"))
+        bump("asm-e2e")
+        nontrivial.add(("e2e", lo >= 0x800, (pc & 0xFFF) > 0xF00, sym < pc))
+        if cpu != sym or cpu_la64(pc, hi, lo) != sym:
+            ctx.violation("asm-e2e:la64-wrong-address", "%s: pcalau12i/addi.d fields hi20=%d lo12=%d at pc=%#x give %#x, the symbol is at %#x" % (
+                op, hi, lo, pc, cpu_la64(pc, hi, lo), sym), {"op": op, "impl": r})
+        e2e_model_ops.append("la %d %d" % (sym, pc)); e2e_fields.append("%d %d" % (hi, lo))
+
     for op, r in zip(ops, impl):
         f = op.split()
+        if f[0] == "asmla":
+            check_e2e(op, r); continue
         if r.startswith("PANIC") or r == "bad-op":
             ctx.violation("%s:%s" % (f[0], r.split()[0]), "%s -> %s" % (op, r), {"op": op, "impl": r})
             continue
@@ -185,11 +203,32 @@ def run(ctx):
         if len(samples) < 14 and (len(ops) < 14 or ctx.rng.random() < 14.0 / len(ops)):
             samples.append({"op": op, "impl": r})
 
+    # ---------------- end to end through the assembler (the user of MakeLa64PCRel) ----------------
+    # a data symbol's address is loaded with pcalau12i/addi.d %pc_hi20/%pc_lo12; the instruction fields are read back
+    # from the linked text and must (a) be what the model computes for (symbol, pc) and (b) give the symbol on the CPU.
+    e2e_ops = []
+    if not ctx.replay:
+        bases = [0x120000000, 0x10000, 0x7fff0000, 0xffff0000, 0x10000000000, 0x80000000]
+        for i in range(48 if ctx.tier == "quick" else 600):
+            nops = ctx.rng.choice([0, 1, 2, 3, 979, 980, 981, 1003, 1004, ctx.rng.randrange(0, 2100)])
+            pad = ctx.rng.choice([0, 1, 7, 8, 2039, 2040, 2047, 2048, 2049, 4087, 4088, 4095, 4096, ctx.rng.randrange(0, 20000)])
+            e2e_ops.append("asmla %d %d %d %s" % (ctx.rng.choice(bases), nops, pad, ctx.rng.choice("td")))
+        _, eo, _ = ctx.run_bin(harness, input_text="\n".join(e2e_ops) + "\n")
+        for op, r in zip(e2e_ops, eo.splitlines()):
+            check_e2e(op, r)
+
     # ---------------- correspondence with the Lean model ----------------
-    if model:
-        _, mout, _ = ctx.run_bin(model, input_text="\n".join(ops) + "\n")
-        for i, op, a, b in ctx.diff_lines(ops, impl, mout.splitlines())[:20]:
+    if model and e2e_model_ops:
+        _, mo, _ = ctx.run_bin(model, input_text="\n".join(e2e_model_ops) + "\n")
+        for i, op, a, b in ctx.diff_lines(e2e_model_ops, e2e_fields, mo.splitlines())[:20]:
+            ctx.proof["broken"].append({"theorem": "correspondence C18 assembler-emitted fields vs model", "why": "op %r: emitted=%r model=%r" % (op, a, b)})
+    mpairs = [(op, r) for op, r in zip(ops, impl) if not op.startswith("asmla")]
+    if model and mpairs:
+        mops, mimpl = [x[0] for x in mpairs], [x[1] for x in mpairs]
+        _, mout, _ = ctx.run_bin(model, input_text="\n".join(mops) + "\n")
+        for i, op, a, b in ctx.diff_lines(mops, mimpl, mout.splitlines())[:20]:
             ctx.proof["broken"].append({"theorem": "correspondence C18 model vs pcrel.go/la64.go", "why": "op %r: impl=%r model=%r" % (op, a, b)})
+    if model and spec_ops:
         # the Lean CPU specifications against the python ones (specification cross-validation)
         _, sout, _ = ctx.run_bin(model, input_text="\n".join(spec_ops) + "\n")
         for i, op, a, b in ctx.diff_lines(spec_ops, spec_expect, sout.splitlines())[:20]:
@@ -211,7 +250,7 @@ def run(ctx):
                     ctx.violation("%s:%s" % (j[0], w[1] if len(w) > 1 else "crash"), "%s over [%d,+%d): %s" % (j[0], j[1], j[2], o.strip()),
                                   {"op": "%s %d %d" % j, "impl": o.strip()})
     cov = {
-        "evaluations": len(ops) + len(spec_ops) + swept,
+        "evaluations": len(ops) + len(spec_ops) + len(e2e_ops) + swept,
         "distinct_nontrivial": len(nontrivial),
         "rule": "line ops: boundary (every power of two +-2, every k*4096 + {0,+-1,+-2047,+-2048,+-2049} near 0 and near +-2^19 pages) and random "
                 "int32 offsets through SplitOffset/MakeAbs/MakePCRel; LoongArch (target, pc) with page deltas at the range edges +-3, page boundaries, "
